@@ -105,6 +105,9 @@ pub struct Scenario {
     pub fine_poll: bool,
     /// drain events() after every call (false: never drain, C12/C18)
     pub drain: bool,
+    /// sessions only call poll_remote_clients(), never advance_frame() (C12)
+    #[serde(default)]
+    pub poll_only: bool,
 }
 
 impl Scenario {
@@ -144,6 +147,7 @@ impl Scenario {
             sched: 0,
             fine_poll: false,
             drain: true,
+            poll_only: false,
         }
     }
 }
